@@ -212,7 +212,7 @@ _POOLS = {}
 
 def _get_pool(n, need_substrate, init):
     import multiprocessing as mp
-    k = (need_substrate, init)
+    k = (need_substrate, init, n)
     if k not in _POOLS:
         mpctx = mp.get_context('spawn')
         pool = mpctx.Pool(n, initializer=_winit,
@@ -222,14 +222,15 @@ def _get_pool(n, need_substrate, init):
 
 
 def pmap(ctx, modname, fnname, args, need_substrate=True, init=None,
-         chunksize=1):
+         chunksize=1, nproc=None):
     """Ordered parallel map of a module-level function over args; worker
     processes persist for the lifetime of the check."""
     args = list(args)
-    if ctx.nproc <= 1 or len(args) <= 1:
+    n = min(ctx.nproc, nproc or ctx.nproc)
+    if n <= 1 or len(args) <= 1:
         _winit(need_substrate, init)
         return [_wcall((modname, fnname, a)) for a in args]
-    pool = _get_pool(ctx.nproc, need_substrate, init)
+    pool = _get_pool(n, need_substrate, init)
     # map_async + timeout: a results thread that dies (e.g. unpicklable
     # result in this process) must surface as an error, not as a hang
     return pool.map_async(
